@@ -1,7 +1,89 @@
 import Driver.Expr
 import Model.IdManager
 import Model.Sig
+import Model.IdState
 open Lean Drv Expr Engine DrvExpr
+
+def tableJson (t : IdM.Table String) : Json :=
+  Json.mkObj [("free", jStrs t.free), ("fixed", jStrs t.fixed), ("cols", jStrs t.cols)]
+
+def sigJson (o : Option (List (SigLine Float))) : Json :=
+  match o with
+  | some ls => jArr (ls.map lineJson)
+  | none => Json.null
+
+/-- the inputs of one evaluation: the two parameter vectors and the data rows -/
+def parseEEs (j : Json) : Except String (List (EngEnv Float)) := do
+  let free ← floatList (← j.getObjVal? "free")
+  let fixed ← floatList (← j.getObjVal? "fixed")
+  let rows ← floatMat (← j.getObjVal? "rows")
+  pure (rows.map fun r => { free := free, fixed := fixed, row := r })
+
+/-- one step of a sequence of operations on the numbering state (`Model/IdState.lean`) -/
+def idStep (d : Dag Float) (cols : List String) (st : IdState.St) (j : Json) :
+    Except String (IdState.St × Json) := do
+  let s ← getStr j "s"
+  match s with
+  | "persist" =>
+    -- `IdManager(roots, database, 0)` + `set_id_manager` on each root / `BIOGEME(database, roots)`
+    let roots ← natList (← j.getObjVal? "roots")
+    match IdState.persist st d roots cols with
+    | .ok st' =>
+      match st'.tables.getLast? with
+      | some t => pure (st', Json.mkObj [("table", tableJson t)])
+      | none => throw "bad-op"
+    | .error e => pure (st, Json.mkObj [("duplicates", jStrs e)])
+  | "function" =>
+    -- the preamble of `create_function`
+    let k ← getNat j "node"
+    match IdState.functionAt st d k cols with
+    | .fresh st' => pure (st', Json.mkObj [("pre", jStr "fresh")])
+    | .kept => pure (st, Json.mkObj [("pre", jStr "kept")])
+    | .mixed => pure (st, Json.mkObj [("pre", jStr "mixed")])
+    | .dup e => pure (st, Json.mkObj [("duplicates", jStrs e)])
+  | "alone" =>
+    -- evaluation with `prepare_ids=True`
+    let k ← getNat j "node"
+    match IdState.aloneAt st d k cols with
+    | .error e => pure (st, Json.mkObj [("duplicates", jStrs e)])
+    | .ok (st1, st2) =>
+      let table := match IdState.tableAt st1 k with
+        | some t => tableJson t
+        | none => Json.null
+      let vals ← match optField j "ee" with
+        | some e => do
+          let ees ← parseEEs e
+          pure (jArr (ees.map fun ee => resJson (IdState.runSt st1 d k ee)))
+        | none => pure Json.null
+      pure (st2, Json.mkObj [("table", table), ("lines", sigJson (IdState.sigSt st1 d k)), ("vals", vals)])
+  | "ctx" =>
+    -- evaluation with `prepare_ids=False` (also the function of `create_function`, `simulate`)
+    let k ← getNat j "node"
+    let ees ← parseEEs (← j.getObjVal? "ee")
+    match st.mgr k with
+    | none => pure (st, Json.mkObj [("refused", jStr "out-of-context")])
+    | some _ =>
+      pure (st, Json.mkObj [("lines", sigJson (IdState.sigSt st d k)),
+                            ("vals", jArr (ees.map fun ee => resJson (IdState.runSt st d k ee)))])
+  | "sig" =>
+    -- `get_signature()` now
+    let k ← getNat j "node"
+    let table := match IdState.tableAt st k with
+      | some t => tableJson t
+      | none => Json.null
+    pure (st, Json.mkObj [("lines", sigJson (IdState.sigSt st d k)), ("table", table)])
+  | "reset" =>
+    -- `set_id_manager(None)` on a formula
+    let k ← getNat j "node"
+    pure (IdState.setMgr st (IdState.reachOf d k) none, Json.mkObj [("reset", jBool true)])
+  | _ => throw "bad-op"
+
+def idSeq (d : Dag Float) (cols : List String) : IdState.St → List Json → Except String (List Json)
+  | _, [] => pure []
+  | st, j :: rest => do
+    let (st', out) ← idStep d cols st j
+    let outs ← idSeq d cols st' rest
+    pure (out :: outs)
 
 def parseDecl (j : Json) : Except String (IdM.Decl String Float) := do
   pure { name := ← getStr j "name", fixed := ← getBool j "fixed", init := ← getFloat j "init" }
@@ -70,6 +152,13 @@ def handle (j : Json) : Except String Json := do
       match st.find root with
       | none => pure (Json.mkObj [("err", jStr "dangling")])
       | some f => pure (resJson (f ee))
+  | "idseq" =>
+    -- a sequence of numbering / evaluation operations on one DAG (state: `IdState.St`)
+    let d ← parseDag (← j.getObjVal? "dag")
+    let cols ← strList (← j.getObjVal? "cols")
+    let steps ← getArr j "steps"
+    if !wfB d then throw "ill-formed dag" else
+    pure (jArr (← idSeq d cols IdState.St.init steps.toList))
   | "prepare" =>
     let decls ← (← getArr j "decls").toList.mapM parseDecl
     let cols ← strList (← j.getObjVal? "cols")
